@@ -22,6 +22,15 @@ CHECKS = {
         "equal the encoded parts exactly.",
         "Epilogue text may carry the padding/line break that followed the close delimiter. Names without quote/backslash/line break; ASCII-compatible charsets.",
     ),
+    "C02": (
+        "exploration",
+        "Hypothesis + exhaustive small grid; differential over WSGI / ASGI / ASGI+zero-copy and GET/HEAD; answers parsed with an independent multipart/byteranges parser and compared with the file and a reference range resolver",
+        "Each generated (size, chunk size, Range, If-Range, content type, download name) case is answered six times (3 interfaces x GET/HEAD) "
+        "through strict gateways (the zero-copy gateway reads the announced fd/offset/count itself); status, Content-Length vs bytes sent, "
+        "Content-Range, every multipart part (slice, type, order), 400/416 bodies, HEAD = GET headers with empty body, If-Range rule and "
+        "agreement of the three interfaces are checked. Small domain (sizes 0..6, chunks 1..3, all sets of <= 2 specs over 0..7) is exhaustive in the thorough tier.",
+        "Random multipart boundary normalised. For non-clean Range text the expected ranges are whatever parse_range returns (C03 judges that).",
+    ),
     "C03": (
         "exploration",
         "exhaustive enumeration of a small range-set domain + Hypothesis generation against a set-based reference resolver",
